@@ -356,3 +356,67 @@ func R_C13_stress_listen() {
 		}
 	}
 }
+
+// H_C13_seqconc: the Session Report Request built by handleDigestReport gets a
+// FRESH sequence number also when another goroutine of the association (the
+// heartbeat monitor) draws one for its own request at the same time - under
+// every interleaving of the critical sections of the sequence counter.
+func H_C13_seqconc() {
+	e := vNewEnv(false)
+	seid := uint64(0x51)
+	s := PFCPSession{localSEID: seid, remoteSEID: 0x77}
+	s.pdrs = append(s.pdrs, pdr{pdrID: 2, farID: 12, fseID: seid, srcIface: core})
+	s.fars = append(s.fars, far{farID: 12, applyAction: ActionBuffer | ActionNotify, fseID: seid})
+	_ = e.pc.store.PutSession(s)
+	e.pc.seqNum.seq = vU32("prev_seq") & 0xfffff
+	vPreemptAtLocks(3)
+	vPreemptOn(&e.pc.seqNum.mux)
+	var hbSeq uint32
+	var wg sync.WaitGroup
+	wg.Add(2)
+	go func() { defer wg.Done(); e.pc.handleDigestReport(seid) }()
+	go func() { defer wg.Done(); hbSeq = e.pc.getHeartBeatRequest().msg.Sequence() }()
+	wg.Wait()
+	vJoin()
+	m, ok := e.vLastReply().(*message.SessionReportRequest)
+	vAssert("seqconc:report-sent", ok && len(e.conn.writes) == 1)
+	vAssert("seqconc:report-and-concurrent-heartbeat-carry-different-sequence-numbers", m.Sequence() != hbSeq)
+	vCover("seqconc")
+}
+
+// R_C13_stress_seqconc: native counterpart.
+func R_C13_stress_seqconc() {
+	deadline := time.Now().Add(30 * time.Second)
+	for round := 0; time.Now().Before(deadline); round++ {
+		pc, _ := vC02Env()
+		var a, b [200]uint32
+		var start, wg sync.WaitGroup
+		start.Add(1)
+		wg.Add(2)
+		go func() {
+			defer wg.Done()
+			start.Wait()
+			for k := range a {
+				a[k] = pc.getSeqNum()
+			}
+		}()
+		go func() {
+			defer wg.Done()
+			start.Wait()
+			for k := range b {
+				b[k] = pc.getHeartBeatRequest().msg.Sequence()
+			}
+		}()
+		start.Done()
+		wg.Wait()
+		seen := map[uint32]bool{}
+		for _, x := range a {
+			seen[x] = true
+		}
+		for _, x := range b {
+			if seen[x] {
+				vStressFail(fmt.Sprintf("round %d: sequence number %d was handed to two requests", round, x))
+			}
+		}
+	}
+}
